@@ -836,6 +836,40 @@ class SwitchEndian(T2Case):
                 self._cs[c].endian = self.prog.endian
 
 
+def _native_switch(self, inputs):
+    """Native replay: fresh cstruct objects, warm-up parse under the original byte order, switch, parse the model's input
+    with both readers."""
+    data = bytes.fromhex(inputs["D"])
+    p = inputs["p"]
+    other = ">" if self.prog.endian == "<" else "<"
+    res = {}
+    for compiled in (False, True):
+        cs = self.prog.load(compiled)
+        T = cs.T
+        try:
+            T(bytes(64))
+        except Exception:  # noqa: BLE001
+            pass
+        cs.endian = other
+        s = io.BytesIO(data)
+        s.seek(p)
+        try:
+            v = T._read(s)
+            res[compiled] = ("ok", v, s.tell())
+        except Exception as e:  # noqa: BLE001
+            res[compiled] = ("raise", type(e).__name__, str(e)[:100])
+    a, b = res[False], res[True]
+    if a[0] == b[0] == "ok":
+        same = native_equiv(a[1], b[1]) and a[2] == b[2]
+    else:
+        same = a[0] == b[0]
+    obs = {"after switching to": other, "interpreted": (a[0], repr(a[1]), *a[2:]), "compiled": (b[0], repr(b[1]), *b[2:])}
+    return {"reproduced": not same, "observed": json.loads(json.dumps(obs, default=str))}
+
+
+SwitchEndian.native = _native_switch
+
+
 def make_switch(prog_json):
     return SwitchEndian(prog_json)
 
